@@ -164,7 +164,7 @@ func cmdCheck(args []string) int {
 	unknownKeys := map[string]int{}
 	res := explore(hs, nWorkers(), deadline, func(c interp.Candidate) bool {
 		k := candKey(c)
-		if _, ok := knownKeys[k]; ok {
+		if _, ok := lookupKnown(knownKeys, k); ok {
 			return false
 		}
 		unknownKeys[k]++
@@ -265,7 +265,7 @@ func cmdCheck(args []string) int {
 	nrep := 0
 	for _, k := range keys {
 		cands := byKey[k]
-		if kf, ok := knownKeys[k]; ok {
+		if kf, ok := lookupKnown(knownKeys, k); ok {
 			fmt.Printf("KNOWN-FINDING: property=%s %s (key %s, %d paths)\n", id, kf.What, k, len(cands))
 			knownHit = append(knownHit, k)
 			continue
@@ -377,7 +377,7 @@ func cmdCheck(args []string) int {
 					}
 					isKnown := false
 					for _, key := range tryKeys {
-						if kf, ok := knownKeys[key]; ok {
+						if kf, ok := lookupKnown(knownKeys, key); ok {
 							fmt.Printf("KNOWN-FINDING: property=%s %s (native run of a sampled path; key %s)\n", id, kf.What, key)
 							knownHit = append(knownHit, key+" (native run of a sampled path)")
 							isKnown = true
@@ -473,6 +473,21 @@ func cmdCheck(args []string) int {
 	}
 	fmt.Printf("PASS property=%s\n", id)
 	return 0
+}
+
+// lookupKnown finds the known finding for a candidate key "harness|label|tags": the exact key, or an entry
+// "harness|*|tags" that lists a finding by harness and history tags for every observation (label) it spoils.
+func lookupKnown(known map[string]knownFinding, key string) (knownFinding, bool) {
+	if kf, ok := known[key]; ok {
+		return kf, true
+	}
+	p := strings.SplitN(key, "|", 3)
+	if len(p) == 3 {
+		if kf, ok := known[p[0]+"|*|"+p[2]]; ok {
+			return kf, true
+		}
+	}
+	return knownFinding{}, false
 }
 
 // parseNativeOutcome splits "ASSERT-FAIL <label> tags=a,b" (tags optional).
